@@ -1,4 +1,158 @@
-(* C14 - derived reactive values converge to their defining function. Statements only (filled in below). *)
-From Coq Require Import ZArith NArith List Bool.
+(* C14 - derived reactive values converge to their defining function. Statements only.
+   Models: C14_Derived/Model.v (one step = one API call run to completion incl. nested callbacks; lower layer =
+   property C13 taken as interface).  Interleaving models: WGI (WaitGroup), LK (SortedSet lock skeleton). *)
+From Coq Require Import ZArith NArith List Bool Sorting.Sorted.
 From Verif.C14_Derived Require Import Model.
+From Verif.C14_Derived Require ProofsDV ProofsCT ProofsSS ProofsEV ProofsWG ProofsLK ProofsSN.
 Import ListNotations.
+
+(* ---- (1) DerivedVariable1..4 / InheritFrom: after ANY history of input writes, unsubscribes, inheritance changes,
+        the derived variable equals compute(current inputs) (guards: still subscribed, never written directly, compute
+        ignores the current value) and an inheriting variable equals its source *)
+Theorem C14_derived_converges : forall f xs i h, DV.pure_fn f = true -> xs <> [] ->
+  let s := DV.run (DV.init f xs i) h in
+  DV.ddirty s = false -> DV.dsub s = true -> DV.d s = DV.apply_fn f 0 (DV.ins s).
+Proof. exact ProofsDV.dv_converges. Qed.
+
+Theorem C14_inherit_copies_source : forall f xs i h, DV.pure_fn f = true -> xs <> [] ->
+  let s := DV.run (DV.init f xs i) h in
+  DV.tdirty s = false -> (0 < DV.tsub s)%nat -> DV.t s = DV.d s.
+Proof. exact ProofsDV.dv_inherit_copies. Qed.
+
+Theorem C14_derived_chain : forall f xs i h, DV.pure_fn f = true -> xs <> [] ->
+  let s := DV.run (DV.init f xs i) h in
+  DV.ddirty s = false -> DV.dsub s = true -> DV.tdirty s = false -> (0 < DV.tsub s)%nat ->
+  DV.t s = DV.apply_fn f 0 (DV.ins s).
+Proof. exact ProofsDV.dv_chain. Qed.
+
+Example C14_derived_nonvacuous :
+  let s := DV.run (DV.init DV.FLin [1; 2; 0]%Z 7%Z)
+             [DV.OInherit; DV.OSetIn 0 5%Z; DV.OSetIn 2 (-3)%Z; DV.OSetT 4%Z; DV.OInherit; DV.OSetIn 1 1%Z; DV.OUnInherit; DV.OSetIn 0 0%Z] in
+  DV.ddirty s = false /\ DV.dsub s = true /\ DV.tdirty s = false /\ (0 < DV.tsub s)%nat /\ DV.d s = 0%Z /\ DV.t s = 0%Z /\ DV.ins s = [0; 1; -3]%Z.
+Proof. exact ProofsDV.dv_nonvacuous. Qed.
+
+(* ---- (2) DerivedSet = union of the current sources, SubtractReactive = source minus the others (all histories of
+        Add/Delete/AddAll/DeleteAll/Apply/Replace on the sources, InheritFrom, unsubscribing; guards: the derived set is
+        not written directly, an unsubscribe function is called at most once, list arguments are duplicate-free) *)
+Theorem C14_union : forall bs h, ProofsSN.wf_bases bs -> Forall ProofsSN.wf_op h ->
+  let s := SN.run (SN.init bs) h in
+  SN.ddirty s = false -> Forall (fun sb => (SN.unsubs sb <= 1)%nat) (SN.subs s) ->
+  NoDup (SN.dval s) /\
+  forall e, In e (SN.dval s) <->
+    exists sb l, In sb (SN.subs s) /\ SN.active sb = true /\ nth_error (SN.bases s) (SN.src sb) = Some l /\ In e l.
+Proof. exact ProofsSN.sn_union. Qed.
+
+Theorem C14_subtract : forall bs h, ProofsSN.wf_bases bs -> Forall ProofsSN.wf_op h ->
+  let s := SN.run (SN.init bs) h in
+  forall r, SN.rs s = Some r ->
+  NoDup (SN.rval r) /\
+  forall e, In e (SN.rval r) <->
+    (exists l, nth_error (SN.bases s) (SN.rsrc r) = Some l /\ In e l) /\
+    (forall o l, In o (SN.roth r) -> nth_error (SN.bases s) o = Some l -> ~ In e l).
+Proof. exact ProofsSN.sn_subtract. Qed.
+
+(* ---- (3) Counter = number of monitored inputs satisfying the condition (an unsubscribed monitor keeps the
+        contribution it had: Monitor's unsubscribe does not retract it) *)
+Theorem C14_counter : forall c xs h, let s := CT.run (CT.init c xs) h in
+  CT.dirty s = false -> CT.cnt s = CT.spec_count c (CT.ins s) (CT.mons s).
+Proof. exact ProofsCT.ct_count. Qed.
+
+Theorem C14_counter_all_subscribed : forall c xs h, let s := CT.run (CT.init c xs) h in
+  CT.dirty s = false -> forallb CT.act (CT.mons s) = true ->
+  CT.cnt s = Z.of_nat (length (filter (fun m => CT.holds c (nth (CT.inp m) (CT.ins s) 0%Z)) (CT.mons s))).
+Proof. exact ProofsCT.ct_count_all_active. Qed.
+
+(* ---- (4) SortedSet: after ANY history of set operations and weight changes (also of removed elements): index
+        fields = positions, same elements as the set, recorded weights current, sorted by (weight, tie-break),
+        Heaviest/Lightest are the ends *)
+Theorem C14_sortedset_invariant : forall tb h, ProofsSS.Inv (SS.run (SS.init tb) h).
+Proof. exact ProofsSS.ss_inv_run. Qed.
+
+Theorem C14_sortedset_sorted_by_current_weight : forall tb h, let s := SS.run (SS.init tb) h in
+  StronglySorted (fun a b => ProofsSS.elt tb (SS.wv s) a b = false) (map SS.el (SS.sorted s)).
+Proof. exact ProofsSS.ss_sorted_by_current_weight. Qed.
+
+Theorem C14_sortedset_same_elements : forall tb h, let s := SS.run (SS.init tb) h in
+  NoDup (map SS.el (SS.sorted s)) /\ forall e, In e (map SS.el (SS.sorted s)) <-> In e (SS.base s).
+Proof. exact ProofsSS.ss_same_elements. Qed.
+
+Theorem C14_sortedset_ends : forall tb h, let s := SS.run (SS.init tb) h in
+  SS.hv s = hd 0%N (map SS.el (SS.sorted s)) /\ SS.lv s = last (map SS.el (SS.sorted s)) 0%N.
+Proof. exact ProofsSS.ss_ends. Qed.
+
+Theorem C14_sortedset_indices : forall tb h, let s := SS.run (SS.init tb) h in
+  forall i r, nth_error (SS.sorted s) i = Some r -> SS.idx r = i.
+Proof. exact ProofsSS.ss_indices. Qed.
+
+(* ---- (6) EvictionState: an event handed out for a slot is triggered iff slot <= last evicted slot *)
+Theorem C14_eviction : forall h, let s := EV.run EV.init h in
+  forall slot hd, In (slot, hd) (EV.handles s) ->
+  EV.triggered s hd = match EV.last s with None => false | Some l => (slot <=? l)%N end.
+Proof. exact ProofsEV.ev_triggered_iff_evicted. Qed.
+
+Theorem C14_eviction_stored_untriggered : forall h, let s := EV.run EV.init h in
+  forall k id, In (k, id) (EV.evs s) -> EV.after_last (EV.last s) k = true /\ EV.triggered s (Some id) = false.
+Proof. exact ProofsEV.ev_stored_untriggered. Qed.
+
+(* ---- (5) WaitGroup, all interleavings of the atomic steps of any Add/Done programs (code after 2702b2b) *)
+Theorem C14_waitgroup_triggers_only_when_emptied : forall progs sched,
+  let s := WGI.run true (WGI.init progs) sched in WGI.trig s = true -> WGI.emptied s = true.
+Proof. exact ProofsWG.wg_trigger_sound. Qed.
+
+Theorem C14_waitgroup_trigger_moment : forall progs sched i,
+  let s := WGI.run true (WGI.init progs) sched in
+  WGI.trig s = false -> WGI.trig (WGI.step true s i) = true ->
+  WGI.pending (WGI.step true s i) = [] /\ ProofsWG.sum_owed (WGI.threads (WGI.step true s i)) = 0%Z.
+Proof. exact ProofsWG.wg_trigger_moment. Qed.
+
+Theorem C14_waitgroup_triggers_when_done : forall progs sched,
+  let s := WGI.run true (WGI.init progs) sched in
+  WGI.quiescent s = true -> WGI.pending s = [] -> WGI.ever s = true -> WGI.trig s = true.
+Proof. exact ProofsWG.wg_trigger_complete. Qed.
+
+Theorem C14_waitgroup : forall progs sched,
+  let s := WGI.run true (WGI.init progs) sched in
+  WGI.quiescent s = true -> WGI.pending s = [] -> (WGI.trig s = true <-> WGI.emptied s = true).
+Proof. exact ProofsWG.wg_trigger_iff. Qed.
+
+(* D14c: the pinned code (before 2702b2b) violated this on an explicit 3-thread schedule *)
+Theorem C14_refuted_waitgroup_dup_pinned :
+  let s := WGI.run false (WGI.init ProofsWG.d14c_progs) ProofsWG.d14c_sched in
+  WGI.quiescent s = true /\ WGI.pending s = [] /\ WGI.emptied s = true /\ WGI.counter s = 0%Z /\ WGI.trig s = false.
+Proof. exact ProofsWG.wg_refuted_dup_pinned. Qed.
+
+(* ---- (7) SortedSet lock skeleton: D14b deadlock of the pinned code (before 3f79633), none after *)
+Theorem C14_refuted_sortedset_deadlock_pinned :
+  LK.deadlocked LK.sys_pinned (LK.run LK.sys_pinned [0; 0; 0] ProofsLK.d14b_sched) = true.
+Proof. exact ProofsLK.lk_refuted_sortedset_deadlock_pinned. Qed.
+
+Theorem C14_sortedset_deadlock_free : forall sched,
+  LK.deadlocked LK.sys_fixed (LK.run LK.sys_fixed [0; 0; 0] sched) = false.
+Proof. exact ProofsLK.lk_sortedset_fixed_deadlock_free. Qed.
+
+Theorem C14_sortedset_deadlock_free_with_add : forall sched,
+  LK.deadlocked LK.sys_fixed_add (LK.run LK.sys_fixed_add [0; 0; 0] sched) = false.
+Proof. exact ProofsLK.lk_sortedset_fixed_add_deadlock_free. Qed.
+
+Print Assumptions C14_derived_converges.
+Print Assumptions C14_inherit_copies_source.
+Print Assumptions C14_derived_chain.
+Print Assumptions C14_union.
+Print Assumptions C14_subtract.
+Print Assumptions C14_counter.
+Print Assumptions C14_counter_all_subscribed.
+Print Assumptions C14_sortedset_invariant.
+Print Assumptions C14_sortedset_sorted_by_current_weight.
+Print Assumptions C14_sortedset_same_elements.
+Print Assumptions C14_sortedset_ends.
+Print Assumptions C14_sortedset_indices.
+Print Assumptions C14_eviction.
+Print Assumptions C14_eviction_stored_untriggered.
+Print Assumptions C14_waitgroup_triggers_only_when_emptied.
+Print Assumptions C14_waitgroup_trigger_moment.
+Print Assumptions C14_waitgroup_triggers_when_done.
+Print Assumptions C14_waitgroup.
+Print Assumptions C14_refuted_waitgroup_dup_pinned.
+Print Assumptions C14_refuted_sortedset_deadlock_pinned.
+Print Assumptions C14_sortedset_deadlock_free.
+Print Assumptions C14_sortedset_deadlock_free_with_add.
